@@ -77,3 +77,8 @@ claim("C07", "exhaustiveness of the action switch against the policy constants o
       "Decides ONLY the enforcement plumbing: every published action has a handler, reject refuses on all paths (4yz exactly on the temporary-error branch), quarantine flags on all paths; Apply returns none without a record and rejects under a temporariness test when the lookup failed; FetchRecord hands lookup errors to that test unwrapped (Apply uses a plain type assertion). The DMARC verdict table (alignment, organizational domains, pct, subdomain policy, From shapes) is a value-level function and is NOT decided: a change inside EvaluateAlignment/isAligned/ExtractFromDomain is invisible to this check.",
       "trusts go/types, go/cfg", "DESIGN.md §3 C07")
 PENDING.pop("C07", None)
+
+claim("C14", "SSA provenance of table keys and of the user name on every way into a provider (count of mapping applications), map-literal agreement of hash tables, all-returns rule of the provider, edge-dominance queries for the authorization identity, the submission gate (three-valued world evaluation of compound conditions) and the recording of the authenticated user",
+      "Decides: one normaliser for every table operation; stored tags have verifiers and equal the selecting key; the provider succeeds only through the selected verifier on the supplied password; the mapping is applied exactly once for PLAIN, LOGIN and the endpoints' direct AUTH PLAIN, both mechanisms report the client's name; unmapped names are refused when a map is configured; differing authorization identity refused before authentication; MAIL cannot start a transaction in the world 'auth required, nobody authenticated'; the gate is armed for submission; the user is recorded only after success. Histories of the table backend are not decided.",
+      "trusts go/types, go/cfg, go/ssa", "DESIGN.md §3 C14")
+PENDING.pop("C14", None)
